@@ -207,12 +207,15 @@ def oracle_schedule(case) -> Result:
 def real_cases(draw):
     spec = draw(ng.netspecs(ng.Profile(family=draw(st.sampled_from(['1d', '2d'])),
                                        pads=('causal', 'same'), max_blocks=3, min_blocks=2,
-                                       fixtures=True)))
-    masks = draw(mk.pit_masks(spec))
+                                       fixtures=True, exclude=True)))
+    masks = draw(mk.pit_masks(spec, pu.fixed_ids(spec)))
     return {'spec': spec, 'masks': masks, 'wseed': draw(st.integers(0, 20)),
             'vseed': draw(st.integers(0, 20)), 'strength': draw(pos),
             'metric': draw(st.sampled_from(['params', 'ops'])),
-            'target_frac': draw(st.floats(min_value=0.1, max_value=1.5)),
+            # the target is often the cost the model has right now (read once, before the
+            # regularizer is called): the penalty must then be exactly zero
+            'target_frac': draw(st.one_of(st.floats(min_value=0.1, max_value=1.5), st.just(1.0))),
+            'full_cost': draw(st.booleans()),
             'n_epochs': draw(st.integers(1, 50)), 'epoch_frac': draw(st.floats(0, 1)),
             'discrete': draw(st.booleans())}
 
@@ -224,9 +227,10 @@ def oracle_real(case) -> Result:
     res = Result()
     spec = case['spec']
     net, pit, x0 = pu.build_pit(spec, case['wseed'], cost={'params': pc.params, 'ops': pc.ops},
-                                discrete_cost=case['discrete'])
+                                discrete_cost=case['discrete'],
+                                full_cost=bool(case.get('full_cost', False)))
     pit.train_nas_only()
-    mk.apply_pit_masks(pit, spec, case['masks'], case['vseed'])
+    mk.apply_pit_masks(pit, spec, case['masks'], case['vseed'], pu.fixed_ids(spec))
     name = case['metric']
     c = float(pit.get_cost(name))
     s = case['strength']
